@@ -165,22 +165,20 @@ var optionalAPIFields = map[string]string{
 
 // reviewed exceptions for index/slice expressions and other panic sites: "function|expression" -> reason
 var panicExceptions = map[string]string{
-	"getStatefulSetRevisions|revisions[revisionCount - 1]":        "guarded by equalCount > 0: FindEqualRevisions returns a sub-sequence of its first argument, so a non-empty result means revisions is non-empty and revisionCount == len(revisions)",
-	"getStatefulSetRevisions|equalRevisions[equalCount - 1]":      "guarded by equalCount > 0 with equalCount == len(equalRevisions) (the engine proves the second occurrence; the first sits in the same condition after `equalCount > 0 &&`)",
-	"getPatch|raw[\"spec\"].(map[string]interface{})":            "the codec always emits spec for a typed object: the JSON tag of Spec has a name and encoding/json writes struct-typed fields even with omitempty",
-	"getPatch|spec[\"template\"].(map[string]interface{})":       "the JSON tag of Template has no omitempty (checked by C18.1)",
-	"ApplyRevision|runtime.EncodeOrDie(patchCodec, clone)":       "encoding a typed, registered object with the package's own codec cannot fail",
-	"getStatefulSetRevisions|updateRevision":                "assigned from newRevision/updateControllerRevision/createControllerRevision after their error was tested nil; each returns a non-nil revision with a nil error (NewControllerRevision always allocates; the API calls return the object)",
-	"NewControllerRevision|cr.Labels[ControllerRevisionHashLabel]": "cr is built three lines above with Labels: labelMap, a map made in this function",
-	"updateStatefulSet|firstUnhealthyPod#2": "scale-down wait: the target is a condemned pod that is neither terminating nor Running/Ready, so the first-unhealthy scan over the condemned pods counted it and (since fix D12) recorded a pod whenever none was recorded; the other dereference of this variable, under unhealthy > 0, is proven by the engine and guards the scan itself",
-	"addPod|obj.(*v1.Pod)":                                        "informer Add handlers receive the registered type (T4)",
-	"updatePod|cur.(*v1.Pod)":                                     "informer Update handlers receive the registered type (T4)",
-	"updatePod|old.(*v1.Pod)":                                     "informer Update handlers receive the registered type (T4)",
-	"processNextWorkItem|key.(string)":                            "the queue only ever receives string keys from enqueueStatefulSet (keyFunc returns a string)",
-	"ClaimPods$lit|obj.(*v1.Pod)":                                 "ClaimObject hands the callbacks the object it was given, which ClaimPods takes from a []*v1.Pod",
-	"Less|br[i]": "sort.Interface contract: indices are within [0, Len())", "Less|br[j]": "sort.Interface contract", "Swap|br[i]": "sort.Interface contract", "Swap|br[j]": "sort.Interface contract",
-	"Less|ao[i]": "sort.Interface contract", "Less|ao[j]": "sort.Interface contract", "Swap|ao[i]": "sort.Interface contract", "Swap|ao[j]": "sort.Interface contract",
-	"Less|o[i]": "sort.Interface contract", "Less|o[j]": "sort.Interface contract", "Swap|o[i]": "sort.Interface contract", "Swap|o[j]": "sort.Interface contract",
+	"getStatefulSetRevisions|‹[]*v1.ControllerRevision›[‹int› - 1]":        "guarded by equalCount > 0: FindEqualRevisions returns a sub-sequence of its first argument, so a non-empty result means revisions is non-empty and revisionCount == len(revisions)",
+	"getPatch|‹map[string]interface{}›[\"spec\"].(map[string]interface{})":            "the codec always emits spec for a typed object: the JSON tag of Spec has a name and encoding/json writes struct-typed fields even with omitempty",
+	"getPatch|‹map[string]interface{}›[\"template\"].(map[string]interface{})":       "the JSON tag of Template has no omitempty (checked by C18.1)",
+	"ApplyRevision|runtime.EncodeOrDie(patchCodec, ‹*v1.StatefulSet›)":       "encoding a typed, registered object with the package's own codec cannot fail",
+	"getStatefulSetRevisions|‹*v1.ControllerRevision›":                "assigned from newRevision/updateControllerRevision/createControllerRevision after their error was tested nil; each returns a non-nil revision with a nil error (NewControllerRevision always allocates; the API calls return the object)",
+	"NewControllerRevision|‹*v1.ControllerRevision›.Labels[ControllerRevisionHashLabel]": "cr is built three lines above with Labels: labelMap, a map made in this function",
+	"updateStatefulSet|‹*v1.Pod›#2": "scale-down wait: the target is a condemned pod that is neither terminating nor Running/Ready, so the first-unhealthy scan over the condemned pods counted it and (since fix D12) recorded a pod whenever none was recorded; the other dereference of this variable, under unhealthy > 0, is proven by the engine and guards the scan itself",
+	"addPod|‹interface{}›.(*v1.Pod)":                                        "informer Add handlers receive the registered type (T4)",
+	"updatePod|‹interface{}›.(*v1.Pod)":                                     "informer Update handlers receive the registered type (T4)",
+	"processNextWorkItem|‹interface{}›.(string)":                            "the queue only ever receives string keys from enqueueStatefulSet (keyFunc returns a string)",
+	"ClaimPods$lit|‹v1.Object›.(*v1.Pod)":                                 "ClaimObject hands the callbacks the object it was given, which ClaimPods takes from a []*v1.Pod",
+	"Less|‹k8s.byRevision›[‹int›]": "sort.Interface contract: indices are within [0, Len())", "Swap|‹k8s.byRevision›[‹int›]": "sort.Interface contract",
+	"Less|‹statefulset.ascendingOrdinal›[‹int›]": "sort.Interface contract", "Swap|‹statefulset.ascendingOrdinal›[‹int›]": "sort.Interface contract",
+	"Less|‹statefulset.overlappingStatefulSets›[‹int›]": "sort.Interface contract", "Swap|‹statefulset.overlappingStatefulSets›[‹int›]": "sort.Interface contract",
 }
 
 func (c *Ctx) panicScope() []*load.FuncInfo {
@@ -243,6 +241,10 @@ func runC15(c *Ctx) {
 	for _, fi := range scope {
 		var ctxs []panicCtx
 		fn, an := c.Analysis(fi)
+		tname := c.tableName(fi)
+		if i := strings.LastIndex(tname, "."); i >= 0 {
+			tname = tname[i+1:]
+		}
 		// an admitted set has spec.replicas and spec.revisionHistoryLimit >= 0 (C15.1-crd-minimums)
 		if okr && mr >= 0 && okh && mh >= 0 {
 			var assume []*gf.Formula
@@ -260,11 +262,11 @@ func runC15(c *Ctx) {
 				an = fn.Analyze(gf.And(assume...))
 			}
 		}
-		ctxs = append(ctxs, panicCtx{fi, fi.Obj.Name(), fn, an, fi.Decl.Body, fi.Pkg.TypesInfo})
+		ctxs = append(ctxs, panicCtx{fi, tname, fn, an, fi.Decl.Body, fi.Pkg.TypesInfo})
 		ast.Inspect(fi.Decl.Body, func(n ast.Node) bool {
 			if l, ok := n.(*ast.FuncLit); ok {
-				lfn, lan := c.LitAnalysis(fi.Pkg.TypesInfo, l, fi.Obj.Name()+"$lit")
-				ctxs = append(ctxs, panicCtx{fi, fi.Obj.Name() + "$lit", lfn, lan, l.Body, fi.Pkg.TypesInfo})
+				lfn, lan := c.LitAnalysis(fi.Pkg.TypesInfo, l, tname+"$lit")
+				ctxs = append(ctxs, panicCtx{fi, tname + "$lit", lfn, lan, l.Body, fi.Pkg.TypesInfo})
 			}
 			return true
 		})
@@ -311,10 +313,14 @@ func (c *Ctx) auditBody(pc panicCtx, guaranteed map[string]bool) (nDeref, nIdx, 
 	})
 	exc := func(e ast.Node) (string, bool) {
 		short := strings.TrimSuffix(pc.name, "$lit")
-		for _, k := range []string{pc.name + "|" + types.ExprString(e.(ast.Expr)), short + "|" + types.ExprString(e.(ast.Expr))} {
+		txt := normExpr(info, e.(ast.Expr))
+		for _, k := range []string{pc.name + "|" + txt, short + "|" + txt} {
 			if why, ok := panicExceptions[k]; ok {
 				return why, true
 			}
+		}
+		if os.Getenv("ASV_DEBUG_EXC") != "" {
+			fmt.Printf("EXC-MISS %q\n", pc.name+"|"+txt)
 		}
 		return "", false
 	}
@@ -367,7 +373,7 @@ func (c *Ctx) auditBody(pc panicCtx, guaranteed map[string]bool) (nDeref, nIdx, 
 				derefOcc[types.ExprString(base)]++
 				var occ ast.Expr = base
 				if n := derefOcc[types.ExprString(base)]; n > 1 {
-					occ = &ast.Ident{Name: fmt.Sprintf("%s#%d", types.ExprString(base), n)}
+					occ = &ast.Ident{Name: fmt.Sprintf("%s#%d", normExpr(info, base), n)}
 				}
 				if why, ok := exc(occ); ok {
 					c.OK("C15.1-optional-field-dereference", name, e.Pos(), "reviewed exception: "+why)
@@ -807,4 +813,53 @@ func (c *Ctx) nilResults(scope []*load.FuncInfo) {
 		}
 	}
 	c.Floor("C15.1-nil-result-dereferences", n, 2)
+}
+
+// normExpr renders e with every local variable replaced by ‹its type›, so that a reviewed
+// exception stays attached when locals are renamed (and does not attach to a different shape).
+func normExpr(info *types.Info, e ast.Expr) string {
+	txt := types.ExprString(e)
+	locals := map[string]string{}
+	ast.Inspect(e, func(n ast.Node) bool {
+		id, ok := n.(*ast.Ident)
+		if !ok {
+			return true
+		}
+		v, ok := info.ObjectOf(id).(*types.Var)
+		if !ok || v.IsField() || v.Pkg() == nil || v.Parent() == v.Pkg().Scope() {
+			return true
+		}
+		locals[id.Name] = "‹" + types.TypeString(v.Type(), func(p *types.Package) string { return p.Name() }) + "›"
+		return true
+	})
+	if len(locals) == 0 {
+		return txt
+	}
+	var names []string
+	for n := range locals {
+		names = append(names, n)
+	}
+	sort.Slice(names, func(i, j int) bool { return len(names[i]) > len(names[j]) })
+	isWord := func(b byte) bool {
+		return b == '_' || b >= '0' && b <= '9' || b >= 'a' && b <= 'z' || b >= 'A' && b <= 'Z'
+	}
+	var sb strings.Builder
+	for i := 0; i < len(txt); {
+		matched := false
+		if (i == 0 || (!isWord(txt[i-1]) && txt[i-1] != '.')) && isWord(txt[i]) {
+			for _, n := range names {
+				if strings.HasPrefix(txt[i:], n) && (i+len(n) == len(txt) || !isWord(txt[i+len(n)])) {
+					sb.WriteString(locals[n])
+					i += len(n)
+					matched = true
+					break
+				}
+			}
+		}
+		if !matched {
+			sb.WriteByte(txt[i])
+			i++
+		}
+	}
+	return sb.String()
 }
